@@ -128,9 +128,14 @@ def opIrfft (c : Cur) : String :=
   let (sign, c) := c.int
   let hd := halfDims dims
   let (x, _) := c.cplx (prodNat hd)
-  match invFourierRealDataND sign hd x with
-  | none => "err"
+  match invFourierRealDataND sign true hd x with
   | some y => join (y.toList.map bitsF)
+  | none =>
+    -- the guard as coded rejects the input; also give the result of the transform with the guard its message describes,
+    -- so that a repaired library (known finding `real-inverse:last-dimension-of-length-2-rejected`) still corresponds
+    match invFourierRealDataND sign false hd x with
+    | some y => "err | " ++ join (y.toList.map bitsF)
+    | none => "err"
 
 def opP2a (c : Cur) : String :=
   let (dims, c) := parseDims c
@@ -171,15 +176,25 @@ def opCsym (c : Cur) : String :=
   let xr := r0 x.box 0
   join ((rangeList xr).map fun i => toString (arrayFilterSymAt (r0 k.box 0).hi (fun j => k.get [j]) xr.lo xr.hi (fun m => x.get [m]) i))
 
+/-- is the kernel (given by its box and accessor) the unit impulse at the origin? -/
+def isDelta (k : IArr) : Bool :=
+  (allIdx k.box).all fun idx => k.get idx == (if idx.all (· == 0) then 1 else 0)
+
 def opConv2 (c : Cur) : String :=
   let c := c.skip
   let (k, c) := c.iarr 2
   let c := c.skip
   let (x, c) := c.iarr 2
   let (ob, _) := c.skip.box 2
-  join ((allIdx ob).map fun idx =>
-    toString (arrayFilter2DAt (r0 k.box 0) (r0 k.box 1) (fun a b => k.get [a, b]) (r0 x.box 0) (r0 x.box 1) (fun a b => x.get [a, b])
-      (idx.getD 0 0) (idx.getD 1 0)))
+  let kf := fun a b => k.get [a, b]
+  let xf := fun a b => x.get [a, b]
+  let coded := join ((allIdx ob).map fun idx =>
+    toString (arrayFilter2DAt (r0 k.box 0) (r0 k.box 1) kf (r0 x.box 0) (r0 x.box 1) xf (idx.getD 0 0) (idx.getD 1 0)))
+  -- known finding `conv2d3d:is_trivial-…`: also give the convolution the class claims to be
+  if isTrivial2D (r0 k.box 0) kf && !isDelta k then
+    coded ++ " | " ++ join ((allIdx ob).map fun idx =>
+      toString (conv2dAt (r0 k.box 0) (r0 k.box 1) kf (r0 x.box 0) (r0 x.box 1) xf (idx.getD 0 0) (idx.getD 1 0)))
+  else coded
 
 def opConv3 (c : Cur) : String :=
   let c := c.skip
@@ -187,9 +202,16 @@ def opConv3 (c : Cur) : String :=
   let c := c.skip
   let (x, c) := c.iarr 3
   let (ob, _) := c.skip.box 3
-  join ((allIdx ob).map fun idx =>
-    toString (arrayFilter3DAt (r0 k.box 0) (r0 k.box 1) (r0 k.box 2) (fun a b d => k.get [a, b, d]) (r0 x.box 0) (r0 x.box 1) (r0 x.box 2)
-      (fun a b d => x.get [a, b, d]) (idx.getD 0 0) (idx.getD 1 0) (idx.getD 2 0)))
+  let kf := fun a b d => k.get [a, b, d]
+  let xf := fun a b d => x.get [a, b, d]
+  let coded := join ((allIdx ob).map fun idx =>
+    toString (arrayFilter3DAt (r0 k.box 0) (r0 k.box 1) (r0 k.box 2) kf (r0 x.box 0) (r0 x.box 1) (r0 x.box 2) xf
+      (idx.getD 0 0) (idx.getD 1 0) (idx.getD 2 0)))
+  if isTrivial3D (r0 k.box 0) kf && !isDelta k then
+    coded ++ " | " ++ join ((allIdx ob).map fun idx =>
+      toString (conv3dAt (r0 k.box 0) (r0 k.box 1) (r0 k.box 2) kf (r0 x.box 0) (r0 x.box 1) (r0 x.box 2) xf
+        (idx.getD 0 0) (idx.getD 1 0) (idx.getD 2 0)))
+  else coded
 
 def opDftf (c : Cur) : String :=
   let (d, c) := c.int
@@ -199,17 +221,21 @@ def opDftf (c : Cur) : String :=
   let c := c.skip
   let (x, c) := c.iarr d
   let (ob, _) := c.skip.box d
-  if d == 1 then
-    let kr := r0 k.box 0
-    let xr := r0 x.box 0
-    let o := r0 ob 0
-    match dftFilter1 kr.lo kr.hi (fun j => k.get [j]) xr.lo xr.hi (fun m => x.get [m]) o.lo o.hi with
+  let run (coded : Bool) : Option String :=
+    if d == 1 then
+      let kr := r0 k.box 0
+      let xr := r0 x.box 0
+      let o := r0 ob 0
+      (dftFilter1 kr.lo kr.hi (fun j => k.get [j]) xr.lo xr.hi (fun m => x.get [m]) o.lo o.hi coded).map fun f =>
+        join ((rangeList o).map fun i => toString (f i))
+    else
+      (dftFilterND k.box k.get x.box x.get ob coded).map fun f => join ((allIdx ob).map fun idx => toString (f idx))
+  match run true with
+  | some s => s
+  | none =>
+    match run false with
+    | some s => "err | " ++ s
     | none => "err"
-    | some f => join ((rangeList o).map fun i => toString (f i))
-  else
-    match dftFilterND k.box k.get x.box x.get ob with
-    | none => "err"
-    | some f => join ((allIdx ob).map fun idx => toString (f idx))
 
 /-- one `F type kmin kmax k…` section -/
 def Cur.filt (c : Cur) : Line1 Int × Cur :=
